@@ -133,6 +133,20 @@ class LiteDRAMAvalonMM2Native(LiteXModule):
             )
         )
 
+        # Number of data taken by the port ahead of their command (burst writes).
+        wdata_ahead = Signal(max=max_burst_length + 1)
+        self.sync += [
+            If(fsm.ongoing("BURST_WRITE"),
+                If((port.wdata.valid & port.wdata.ready) & ~(port.cmd.valid & port.cmd.ready),
+                    wdata_ahead.eq(wdata_ahead + 1)
+                ).Elif(~(port.wdata.valid & port.wdata.ready) & (port.cmd.valid & port.cmd.ready) & (wdata_ahead != 0),
+                    wdata_ahead.eq(wdata_ahead - 1)
+                )
+            ).Else(
+                wdata_ahead.eq(0)
+            )
+        ]
+
         self.cmd_fifo   = cmd_fifo   = stream.SyncFIFO(cmd_layout,   max_burst_length)
         self.wdata_fifo = wdata_fifo = stream.SyncFIFO(wdata_layout, max_burst_length)
 
@@ -140,6 +154,7 @@ class LiteDRAMAvalonMM2Native(LiteXModule):
             # FIFO producer
             avalon.waitrequest.eq(~(cmd_fifo.sink.ready & wdata_fifo.sink.ready)),
             cmd_fifo.sink.payload.address.eq(address),
+            cmd_fifo.sink.last.eq(burst_count == 1), # End of burst (flushes a width up-converter).
             cmd_fifo.sink.valid.eq(avalon.write & ~avalon.waitrequest),
 
             wdata_fifo.sink.payload.data.eq(avalon.writedata),
@@ -155,15 +170,19 @@ class LiteDRAMAvalonMM2Native(LiteXModule):
                 avalon.waitrequest.eq(1),
                 # Wait for the FIFO to be empty (at the end of the burst only: the master is allowed
                 # to de-assert write between the beats of a burst).
-                If((burst_count == 0) & (cmd_fifo.level == 0) & (wdata_fifo.level == 1) & port.wdata.ready,
+                If((burst_count == 0) & (cmd_fifo.level == 0) &
+                   ((wdata_fifo.level == 0) | ((wdata_fifo.level == 1) & port.wdata.ready)),
                     NextState("START")
                 )
             ),
 
             # FIFO consumer
             port.cmd.addr.eq(cmd_fifo.source.payload.address),
+            port.cmd.last.eq(cmd_fifo.source.last),
             port.cmd.we.eq(port.cmd.valid),
-            port.cmd.valid.eq(cmd_fifo.source.valid & (0 < wdata_fifo.level)),
+            # Send a command only when its data is buffered or has already been taken by the port
+            # (a width converter takes the data before it accepts the command).
+            port.cmd.valid.eq(cmd_fifo.source.valid & ((0 < wdata_fifo.level) | (wdata_ahead != 0))),
             cmd_fifo.source.ready.eq(port.cmd.ready),
 
             port.wdata.data.eq(wdata_fifo.source.payload.data),
@@ -177,6 +196,7 @@ class LiteDRAMAvalonMM2Native(LiteXModule):
             port.cmd.addr.eq(address),
             port.cmd.we.eq(0),
             port.cmd.valid.eq(~cmd_ready_seen),
+            port.cmd.last.eq(cmd_ready_count == 1), # End of burst (flushes a width up-converter).
 
             port.rdata.ready.eq(1),
             avalon.readdata.eq(port.rdata.data),
